@@ -3,6 +3,7 @@ package harness
 import (
 	"context"
 	"fmt"
+	"os"
 	"reflect"
 	"runtime"
 	"strings"
@@ -68,6 +69,28 @@ func (f *c14LogFeed) GetLatestPayloads(context.Context) ([]ocr2keepers.UpkeepPay
 func (f *c14LogFeed) SetConfig(ocr2keepers.LogEventProviderConfig) {}
 func (f *c14LogFeed) Start(context.Context) error                  { return nil }
 func (f *c14LogFeed) Close() error                                 { return nil }
+
+// c14RecFeed: `perTick` fresh recovery proposals on every poll of the recovery proposal flow (a second
+// tick-driven client of the shared runner next to the log trigger flow)
+type c14RecFeed struct {
+	mu      sync.Mutex
+	perTick int
+	next    int
+	rng     *Rng
+}
+
+func (f *c14RecFeed) GetRecoveryProposals(context.Context) ([]ocr2keepers.UpkeepPayload, error) {
+	f.mu.Lock()
+	defer f.mu.Unlock()
+	out := make([]ocr2keepers.UpkeepPayload, 0, f.perTick)
+	for i := 0; i < f.perTick; i++ {
+		uid := genUpkeepID(f.rng, true)
+		res := genResult(f.rng, uid, uint64(5000+f.next))
+		f.next++
+		out = append(out, ocr2keepers.UpkeepPayload{UpkeepID: uid, Trigger: res.Trigger, WorkID: res.WorkID})
+	}
+	return out, nil
+}
 
 // c14Gauge: the check pipeline; every call takes `ms` virtual milliseconds (or ends with its context)
 type c14Gauge struct {
@@ -139,6 +162,10 @@ func c14RunDelegate(t *testing.T, in c14Input, verdict func(c14Impl)) (impl c14I
 		base := c14BubbleGoroutines()
 		feed := &c14LogFeed{perTick: in.PerTick, rng: NewRng(in.Salt + 99)}
 		gauge := &c14Gauge{ms: in.LongMs}
+		var rec ocr2keepers.RecoverableProvider = &fakeRecoverable{}
+		if in.RecPerTick > 0 {
+			rec = &c14RecFeed{perTick: in.RecPerTick, rng: NewRng(in.Salt + 77)}
+		}
 		workers := in.Workers
 		if in.Unset {
 			workers = 0 // the operator leaves the limit to the default (in.Workers holds that default)
@@ -157,7 +184,7 @@ func c14RunDelegate(t *testing.T, in c14Input, verdict func(c14Impl)) (impl c14I
 			LogProvider:         feed,
 			EventProvider:       &fakeEvents{},
 			BlockSubscriber:     &fakeBlocks{},
-			RecoverableProvider: &fakeRecoverable{},
+			RecoverableProvider: rec,
 			PayloadBuilder:      fakeBuilder{},
 			UpkeepProvider:      &fakeGetter{},
 			UpkeepStateUpdater:  &fakeStateUpdater{},
@@ -197,6 +224,10 @@ func c14RunDelegate(t *testing.T, in c14Input, verdict func(c14Impl)) (impl c14I
 		impl.Phase = "final"
 		impl.MaxConc = int(gauge.maxConc.Load())
 		impl.Leaked = c14BubbleGoroutines() - base
+		if os.Getenv("VERIF_C14_DEBUG") != "" {
+			fmt.Fprintf(os.Stderr, "c14 delegate: workers=%d perTick=%d recPerTick=%d ticks=%d longMs=%d: pipeline calls=%d maxConc=%d leaked=%d\n",
+				in.Workers, in.PerTick, in.RecPerTick, in.Ticks, in.LongMs, gauge.calls.Load(), gauge.maxConc.Load(), impl.Leaked)
+		}
 		if gauge.calls.Load() == 0 && in.PerTick > 0 && in.Ticks > 0 {
 			impl.Panic = "the flows never called the check pipeline"
 		}
